@@ -6,7 +6,7 @@ tr = {}
 if os.path.exists('/verif/checks.d/_fragments/TR.json'):
     tr = json.load(open('/verif/checks.d/_fragments/TR.json'))
 for pid in ('C06', 'C07', 'C08'):
-    fa = json.load(open(f'/tmp/w/filtersA/verif/checks.d/{pid}.json'))
+    fa = json.load(open(f'' + os.path.join(os.path.dirname(os.path.dirname(os.path.abspath(__file__))), 'checks.d', '_fragments', 'FA-base', pid + '.json') + ''))
     fb = frag[pid]
     fa['props_modules'] = fa.get('props_modules', []) + [m for m in fb['props_modules'] if m not in fa.get('props_modules', [])]
     fa['assumptions'] = fa.get('assumptions', []) + fb.get('assumptions', [])
